@@ -3058,6 +3058,21 @@ func (m *Matcher) unroll(l *Loop, c *cont, fr *frame) *cont {
 	case *ast.Ident:
 		if va, ok := fr.vargs[fr.ctx.Info.ObjectOf(x)]; ok && fr.parent != nil {
 			elems, efr = va, fr.parent
+		} else if o := fr.ctx.Info.ObjectOf(x); o != nil && isLocalVar(o) {
+			// a local that is one array/slice literal (body := [7]int64{a, b, …}; for _, v := range body)
+			if d := fr.ctx.singleDef(o); d != nil {
+				if cl, ok := ast.Unparen(d).(*ast.CompositeLit); ok {
+					positional := true
+					for _, el := range cl.Elts {
+						if _, kv := el.(*ast.KeyValueExpr); kv {
+							positional = false
+						}
+					}
+					if positional {
+						elems = cl.Elts
+					}
+				}
+			}
 		}
 	}
 	if len(elems) == 0 || len(elems) > 64 {
@@ -3066,6 +3081,9 @@ func (m *Matcher) unroll(l *Loop, c *cont, fr *frame) *cont {
 	next := c.advance()
 	for i := len(elems) - 1; i >= 0; i-- {
 		s, ok := m.X.canonF(efr, stripConv(efr.ctx, elems[i]), 0)
+		if tv, isC := efr.ctx.Info.Types[elems[i]]; isC && tv.Value != nil {
+			s, ok = tv.Value.ExactString(), true // a (named) constant element is its value
+		}
 		if !ok {
 			return nil
 		}
@@ -3114,6 +3132,17 @@ func (m *Matcher) devirtualise(call *Call, fr *frame) *Call {
 // dynConst: the value of p.Getter() written by an inlined helper when p is a parameter the caller
 // bound to a value of concrete static type whose Getter is `return <constant>` (the type tag).
 func (m *Matcher) dynConst(fr *frame, e ast.Expr) constant.Value {
+	// a loop variable of an unrolled loop (or a parameter) standing for a constant element
+	if fr != nil {
+		if id, ok := ast.Unparen(stripConv(fr.ctx, e)).(*ast.Ident); ok {
+			if s, ok := fr.subst[fr.ctx.Info.ObjectOf(id)]; ok {
+				var n int64
+				if _, err := fmt.Sscanf(s, "%d", &n); err == nil && fmt.Sprint(n) == s {
+					return constant.MakeInt64(n)
+				}
+			}
+		}
+	}
 	if fr == nil || fr.parent == nil {
 		return nil
 	}
